@@ -143,12 +143,112 @@ def walk_body(func):
             yield n
 
 
+def _property_names(tree):
+    out = set()
+    for n in ast.walk(tree):
+        if isinstance(n, ast.FunctionDef) and any((isinstance(d, ast.Name) and d.id == "property") or
+                                                   (isinstance(d, ast.Attribute) and d.attr in ("setter", "getter")) for d in n.decorator_list):
+            out.add(n.name)
+        if isinstance(n, ast.Assign) and isinstance(n.value, ast.Call) and isinstance(n.value.func, ast.Name) and n.value.func.id == "property":
+            out |= {t.id for t in n.targets if isinstance(t, ast.Name)}
+    return out
+
+
+def inline_object_aliases(tree):
+    """Normalisation before any analysis: a local bound exactly once to a plain attribute path (`join = self._urljoin_cache`,
+    `scopes = self._scopes_stack`, `enter = scopes.append`) and used only as an *object* -- called, or the receiver of an attribute
+    access / subscript -- is replaced at its uses by that path.  The path is read again at each use instead of once, which is the
+    same object as long as nobody re-binds an attribute on it in between: attributes that are properties anywhere in the module,
+    and functions that assign to any attribute of the same name, are left alone.  Line numbers of the uses are kept."""
+    props = _property_names(tree)
+    changed = 0
+    for fn in [n for n in ast.walk(tree) if isinstance(n, (ast.FunctionDef, ast.AsyncFunctionDef))]:
+        for _round in range(3):
+            body_nodes = []
+            for st in fn.body:
+                body_nodes += list(ast.walk(st))
+            nested = [n for n in body_nodes if isinstance(n, (ast.FunctionDef, ast.AsyncFunctionDef, ast.Lambda, ast.ClassDef))]
+            nested_names = {x.id for n in nested for x in ast.walk(n) if isinstance(x, ast.Name)}
+            params = {a.arg for a in fn.args.args + fn.args.kwonlyargs + getattr(fn.args, "posonlyargs", [])} | \
+                ({fn.args.vararg.arg} if fn.args.vararg else set()) | ({fn.args.kwarg.arg} if fn.args.kwarg else set())
+            stores = {}
+            for n in body_nodes:
+                if isinstance(n, ast.Name) and isinstance(n.ctx, (ast.Store, ast.Del)):
+                    stores[n.id] = stores.get(n.id, 0) + 1
+            attr_stores = {n.attr for n in body_nodes if isinstance(n, ast.Attribute) and isinstance(n.ctx, (ast.Store, ast.Del))}
+            cands = {}
+            for st in fn.body:          # top-level statements of the function only: the binding dominates everything after it
+                if isinstance(st, ast.Assign) and len(st.targets) == 1 and isinstance(st.targets[0], ast.Name):
+                    x, v = st.targets[0].id, st.value
+                    chain, cur = [], v
+                    while isinstance(cur, ast.Attribute):
+                        chain.append(cur.attr)
+                        cur = cur.value
+                    if not (isinstance(cur, ast.Name) and chain):
+                        continue
+                    if stores.get(x) != 1 or x in params or x in nested_names or any(isinstance(n, (ast.Global, ast.Nonlocal)) and x in n.names for n in body_nodes):
+                        continue
+                    if any(a in props or a in attr_stores for a in chain) or stores.get(cur.id, 0) > (0 if cur.id in params else 1):
+                        continue
+                    cands[x] = (st, v)
+            if not cands:
+                break
+            parent = {}
+            for st in fn.body:
+                for a in ast.walk(st):
+                    for c in ast.iter_child_nodes(a):
+                        parent[id(c)] = a
+            done = False
+            for x, (st, v) in cands.items():
+                uses = [n for n in body_nodes if isinstance(n, ast.Name) and n.id == x and isinstance(n.ctx, ast.Load)]
+                if not uses:
+                    continue
+                ok = True
+                for u in uses:
+                    p = parent.get(id(u))
+                    if isinstance(p, ast.Call) and p.func is u:
+                        continue
+                    if isinstance(p, ast.Attribute) and p.value is u and isinstance(p.ctx, ast.Load):
+                        continue
+                    if isinstance(p, ast.Subscript) and p.value is u:
+                        continue
+                    ok = False
+                    break
+                # the binding must come before every use (same top-level sequence)
+                if not ok or any((u.lineno, u.col_offset) < (st.lineno, st.col_offset) for u in uses):
+                    continue
+
+                class Sub(ast.NodeTransformer):
+                    def visit_Name(self, n):
+                        if n.id == x and isinstance(n.ctx, ast.Load):
+                            new = copy.deepcopy(v)
+                            for sub in ast.walk(new):
+                                ast.copy_location(sub, n)
+                            return new
+                        return n
+                import copy
+                for i, s2 in enumerate(fn.body):
+                    if s2 is st:
+                        continue
+                    fn.body[i] = Sub().visit(s2)
+                fn.body.remove(st)
+                changed += 1
+                done = True
+                break           # re-scan: the replaced path may itself start with another alias
+            if not done:
+                break
+    if changed:
+        ast.fix_missing_locations(tree)
+    return changed
+
+
 class Mod:
     def __init__(self, name, path, src):
         self.name = name
         self.path = path
         self.src = src
         self.tree = ast.parse(src, filename=path)
+        self.aliases_inlined = inline_object_aliases(self.tree)
         self.top = {}       # name -> Func | Cls | ast.expr (last module-level binding)
         self.bindings = {}  # name -> list of (value expr | Func | Cls, stmt) all module-level bindings incl. in if/try
         self.imports = {}   # local name -> ("mod", dotted) | ("from", dotted, attr)
